@@ -121,7 +121,7 @@ func waitSettled(self int, completed func() int) bool {
 }
 
 type sOp struct {
-	actor string // CS CC CR H ENV
+	actor string // CS CC CR H HR ENV
 	kind  string // CSend CClose CRecv CHeader CTrailer HRecv HSend HSetHeader HSendHeader HSetTrailer HReturn Cancel Deadline
 	x     int64  // payload id / return code
 	md    []int64
@@ -247,10 +247,26 @@ func runSchedule(kind string, next func(busy map[string]bool, round int) *sOp) s
 	base := runtime.NumGoroutine()
 	mctx := newManualCtx()
 	hCmd := make(chan sOp)
+	hrCmd := make(chan sOp) // a second goroutine of the handler that only receives
 	handlerGID := 0
 	handlerStarted := make(chan struct{})
 	svc := &hx.Svc{Stream: func(_ string, ss grpc.ServerStream) error {
 		handlerGID = curGoroutineID()
+		go func() {
+			for range hrCmd {
+				var r string
+				func() {
+					defer guard("HR")
+					m := &hx.Msg{}
+					if err := ss.RecvMsg(m); err != nil {
+						r = errRes(err)
+					} else {
+						r = fmt.Sprintf("(RMsg %d)", m.Count)
+					}
+				}()
+				emit("HR", r)
+			}
+		}()
 		close(handlerStarted)
 		for op := range hCmd {
 			var r string
@@ -338,7 +354,7 @@ func runSchedule(kind string, next func(busy map[string]bool, round int) *sOp) s
 		}()
 		return c
 	}
-	actors := map[string]chan sOp{"CS": mkActor("CS"), "CC": mkActor("CC"), "CR": mkActor("CR"), "H": hCmd}
+	actors := map[string]chan sOp{"CS": mkActor("CS"), "CC": mkActor("CC"), "CR": mkActor("CR"), "H": hCmd, "HR": hrCmd}
 	returnIssued, returnReported := false, false
 	taken := 0
 	if !waitSettled(self, nDone) {
@@ -404,7 +420,7 @@ func runSchedule(kind string, next func(busy map[string]bool, round int) *sOp) s
 		case <-time.After(500 * time.Millisecond):
 		}
 	}
-	for _, n := range []string{"CS", "CC", "CR"} {
+	for _, n := range []string{"CS", "CC", "CR", "HR"} {
 		c := actors[n]
 		go func() { defer func() { recover() }(); close(c) }()
 	}
